@@ -511,6 +511,46 @@ mod imp {
                                 }
                             }
                         }
+                        // a query term that was never inserted: a tracked parent of ti with that kid
+                        // replaced by the equal term (equal by congruence; new syntactic classes
+                        // are created during the query)
+                        if i != j && orng.chance(1, 2) {
+                            let parent = s.tracked.iter().map(|t| t.tm.clone()).find(|p| p.kids.iter().any(|k| k.binders.is_empty() && k.t == ti));
+                            if let Some(pt) = parent {
+                                let mut p2 = pt.clone();
+                                for k in p2.kids.iter_mut() {
+                                    if k.binders.is_empty() && k.t == ti {
+                                        k.t = tjr.clone();
+                                        break;
+                                    }
+                                }
+                                let r1 = to_re::<LS>(&pt, &mut s.nm);
+                                let r2 = to_re::<LS>(&p2, &mut s.nm);
+                                match catch_op(|| s.eg.explain_equivalence(r1, r2)) {
+                                    Err(p) => {
+                                        out.violations.push(panic_violation("C07", "explain_returns", &p, k));
+                                        return finish(out, run, &s, any_change);
+                                    }
+                                    Ok(proof) => {
+                                        let res = catch_op(|| check_proof(&s.eg, &mut s.nm, &proof, &asserted, &[], &(pt.clone(), p2.clone())));
+                                        match res {
+                                            Err(p) => {
+                                                out.violations.push(panic_violation("C07", "proof_readable", &p, k));
+                                                return finish(out, run, &s, any_change);
+                                            }
+                                            Ok(Err((clause, m))) => {
+                                                out.violations.push(viol(&clause, format!("explaining {pt} = {p2} (second term never inserted): {m}"), k));
+                                                return finish(out, run, &s, any_change);
+                                            }
+                                            Ok(Ok((n, _))) => {
+                                                out.count("proof_nodes_checked", n);
+                                                out.bump("new_term_proofs_checked");
+                                            }
+                                        }
+                                    }
+                                }
+                            }
+                        }
                     }
                 }
                 out.states.push(state_hash(&s.eg));
